@@ -2,7 +2,7 @@
 
 case kinds
   {"kind": "canon-<how>", "rsmi": r, "backend": "wl"|"nauty", "orig": r0?}   CanonRSMI(backend).canonicalise(r); <how> in
-        corpus | renum | reroot | frag | partial | addH | del | dup | regress          (orig = the corpus reaction r was derived from)
+        corpus | renum | reroot | frag | partial | addH | del | dup | regress | fix          (orig = the corpus reaction r was derived from)
   {"kind": "valid-<how>", "mapped": r1, "truth": r2, "x": .., "y": ..}         AAMValidator.smiles_check(r1, r2, RC / ITS); <how> in
         self | renum | reroot | swap-noneq | swap-eq | swap-other | cross | hand
   {"kind": "bal-<how>", "rsmi": r}                                             BalanceReactionCheck.rsmi_balance_check(r); <how> in
@@ -1419,6 +1419,16 @@ def gen_cases(tier, rng):
             except Exception:
                 pass
 
+    # the SECOND run (round 6, C09_fixed_point_nauty): the canonical string of reactions with symmetric reactants goes through the
+    # canonicaliser again - model (identity order) and implementation are compared on it like on any other input
+    for i, r in enumerate((REPEATED + AROM) if not q else (REPEATED[:5] + AROM[:2])):
+        for be in BACKENDS:
+            try:
+                out = _with_alarm(SLOW_IMPL_S, lambda: _canon(r, be).canonical_rsmi)
+            except Exception:
+                out = None
+            if out and "None" not in out:
+                cases += _canon_cases("fix", out, src="second-run#%d" % i, backends=(be,))
     # corpus reactions with a product atom that has no reactant partner (a released proton): the repaired path on real data
     if q:
         for s, i, r in [x for x in ec if x[1] in (132, 186)][:1]:
@@ -1625,7 +1635,7 @@ ASSUMPTIONS = [
     "[reads_back] (the canonical string is parsed back to the written graphs up to listing order), writer contract of Standardize "
     "(a written fragment is read back and written as itself, no '.' or '>' inside): RDKit contracts, monitored by the oracle clauses "
     "canon-fixed-point, canon-numbering-independent, standardize-idempotent, standardize-invariant on every run",
-    "wl: WL colours of corresponding atoms correspond (networkx contract) and are pairwise distinct; nauty: reactant graph without non-trivial automorphism",
+    "numbering independence only (the fixed point needs neither): wl: WL colours of corresponding atoms correspond (networkx contract) and are pairwise distinct; nauty: reactant graph without non-trivial automorphism",
 ]
 TESTED_NOT_PROVED = [
     "history independence of the IMPLEMENTATION (no stale instance state / module-level cache / aliasing of returned objects): every step of "
@@ -1636,8 +1646,6 @@ TESTED_NOT_PROVED = [
     "CalcMolFormula string equality <=> equal element counts and charge (RDKit oracle; the graph-level formula is proved, the verdicts are compared on every run)",
     "rsmi_to_graph / graph_to_smi (RDKit front and back end of the canonicaliser): 'same unmapped reactants and products' of the returned STRING "
     "is checked by the oracle on every run (graph level: proved, the canonical graphs are relabelled copies)",
-    "fixed point of the canonicaliser for back-end nauty on reactant graphs WITH non-trivial automorphisms: the text demands it unconditionally, "
-    "the theorem covers rigid graphs (wl: proved unconditionally); oracle clause canon-fixed-point on every canonicaliser case",
     "WL colours are an input of the model (any ranking); nauty model evaluated only for reactant graphs of <= %d atoms, ITS matcher for <= %d atoms "
     "(larger cases: oracle + reaction-centre matcher only)" % (NAUTY_MAX_ATOMS, ITS_MAX_ATOMS),
     "validate_smiles: success_rate and the float accuracy (derived by the harness from the modelled exact count); RDKit's tautomer enumeration "
@@ -1651,15 +1659,15 @@ LEVEL_TEXT = ("Machine-checked proof (Coq) over executable models of CanonRSMI.c
               "and product graphs are the input graphs renamed by one injective map (canonical position on reactant atoms, fresh numbers after "
               "them on product atoms without partner), mapping_pairs are exactly the shared atoms, the ITS of the canonical reaction is "
               "isomorphic to the ITS of the input; expand_aam keeps mapped numbers and gives unmapped atoms fresh, pairwise different numbers (no "
-              "unmapped atom gets a partner). Numbering / atom-order / bond-order independence and fixed point: for nauty on reactant graphs without "
+              "unmapped atom gets a partner). Numbering / atom-order / bond-order independence: for nauty on reactant graphs without "
               "non-trivial automorphism (the text's hypothesis 'all atoms distinguishable'; from the C08 theorems about the search), for wl only under "
               "the STRONGER hypothesis of corresponding, pairwise distinct WL colours - under the text's hypothesis wl is REFUTED "
               "(C09_numbering_independent_wl_refuted, known finding wl-tied-colours-distinguishable); for EVERY parsed presentation of the reaction "
               "(any renaming that keeps the relative order of partner-less product atoms, any atom order, bond order, bond orientation) at graph "
               "level, and for the canonical_rsmi STRING relative to two explicit RDKit contracts (writer is a function of the graph; the canonical "
-              "string is read back as the written graphs). The fixed-point clause, which the text states without condition, is proved for wl without "
-              "any condition on the colours (tied colours included; every presentation, string level) and for nauty on rigid reactant graphs; for nauty "
-              "on reactant graphs with automorphisms it is checked by the oracle on every run. The validator's matcher answers true exactly when "
+              "string is read back as the written graphs). The fixed-point clause, which the text states without condition, is proved without "
+              "condition for both back-ends (wl: tied colours included; nauty: every reactant graph, automorphisms or not - on a canonical graph the "
+              "search visits the identity order first and keeps it), for every presentation and at string level. The validator's matcher answers true exactly when "
               "the two ITS graphs / reaction centres are isomorphic on typesGH and bond-order pairs (both values of ignore_aromaticity), hence "
               "accepts every renumbering and rejects every non-equivalent swap; check_equivariant_graph returns exactly the index pairs of "
               "isomorphic graphs. Balance: true exactly when all element counts (with hydrogens) and the total charge agree; dicts_balance_check "
